@@ -191,6 +191,28 @@ def gen_case(rng, udp):
     return ("U %s" % ";".join(ops)) if udp else ("T %d %s" % (maxq, ";".join(ops)))
 
 
+def gen_cap_case(rng):
+    """UDP with a session cap: fill it with accepted peers, connectViaListener at the cap (the id must get its close),
+    free a slot, connectViaListener again (succeeds)"""
+    cap = rng.choice([1, 2, 3])
+    ops, live, nid = [], [], 3          # ids 1 and 2 are the barrier sessions
+    for _ in range(cap):
+        ops.append("a"); live.append(nid); nid += 1
+    for _ in range(rng.randint(1, 2)):
+        ops.append("v"); nid += 1       # at the cap: id handed out, close only
+    if rng.random() < 0.5:
+        ops.append("d:%d" % rng.choice(live))
+    victim = rng.choice(live)
+    ops.append("x:%d" % victim); live.remove(victim)
+    ops.append("v"); live.append(nid); nid += 1     # below the cap again: a real session
+    ops.append("o:%d" % live[-1])
+    ops.append("q")
+    if rng.random() < 0.5:
+        ops.append("v"); nid += 1       # at the cap once more
+    ops.append("q")
+    return "UC %d %s" % (cap, ";".join(ops))
+
+
 CORPUS = [
     "T 2 c:ok;o:3;o:3;o:3;o:3;o:3;u:2;u:1;m:3:4;x:3;q",
     "T 2 c:tlsok;o:3;c:tlsbad;c:tlshang;t:5:h;t:3:h;a:tls;a:tlsbad;t:6:c;k:3;q;x:6;q;z;q",
@@ -231,6 +253,8 @@ def run(ctx):
             lines = list(CORPUS)
             for i in range(n):
                 lines.append(gen_case(rng, udp=(i % 3 == 2)))
+            for i in range(8 if not thorough else 100):
+                lines.append(gen_cap_case(rng))
             nstorm = 24 if not thorough else 300
             base = rng.randint(1, 10 ** 6)
             storms = ["X %s %d %d %d" % ("udp" if i % 3 == 2 else "tcp", 4, 120 if not thorough else 400, base + i) for i in range(nstorm)]
@@ -278,7 +302,7 @@ def run(ctx):
             cov["evaluations"] = len(lines)
             cov["distinct_nontrivial"] = nontrivial
             cov["rule"] = ("random scenarios on the real Transport over TcpEngine (2/3) and UdpEngine (1/3): connects to an accepting "
-                           "listener / a closed port / an unresolvable name / a listener with a full backlog, connectViaListener, accepts, "
+                           "listener / a closed port / an unresolvable name / a listener with a full backlog, connectViaListener (also at a UDP session cap), accepts, "
                            "peer data / close / reset, application close (also of unknown ids), sends, back-pressure overflow, a parked "
                            "write, idle GC, timer-originated closes of the three origins (live and stale), observe / unobserve / "
                            "setSessionData at random points, gauge reads, stop in three variants (plain; with commands queued while the I/O "
